@@ -101,7 +101,7 @@ def main(tier, only=None):
             shapes.append(('hx_routing', [n, flt], 'routing/n%d/f%d' % (n, flt)))
     if only:
         shapes = [s for s in shapes if re.search(only, s[2])]
-    u = E2Unit('log_C14', os.path.join(HERE, 'w_log.cpp'), lib_srcs=lib_srcs(), shapes=shapes, timeout=300 if tier == 'quick' else 1200, conc_cap=300,
+    u = E2Unit('log_C14', os.path.join(HERE, 'w_log.cpp'), lib_srcs=lib_srcs(), shapes=shapes, timeout=900 if tier == 'quick' else 3600, conc_cap=300,
                bounds=dict(filter_settings='sequences of <= 3 settings (type enumerated, level parameters symbolic over the whole enum)', message='level and class symbolic over the whole enums',
                            duplicate_policy='ignore / exception / replace', logging='2 logs x 2 destinations, 6 filter sites, log-id mask symbolic', routing='3 and 4 logs (thorough 1..5), every id subset incl. non-contiguous ones and one undefined bit'))
     rule = ('one obligation = (duplicate policy, sequence of filter types[, filter sites]); inside, every filter level, the message level/class and the log selection are symbolic; '
